@@ -81,6 +81,29 @@ def run(chk):
                           {"job": {k: bad[k] for k in ("id", "name", "owners", "outs", "mode")}, "x": mc.last_state(res.trace, "x"),
                            "tlc": res.trace[-5000:]})
             rs = [r for r in rs if r is not bad]
+    # --- plaintext / public truncation at every width: the TLA+ reference semantics of Truncate (CCOps, exact on limbs)
+    # judges the real evaluator on the Truncate cases of the C10 enumeration (all 11 scalar types, negative values,
+    # power-of-two and general scales up to 2^127): "truncation of public (unshared) values is exact"
+    from . import ops_common as oc
+    import json as _json
+    files, fams, _ = oc.enumerate_cases(chk, "MC_OpsCases_v_%s.cfg" % tier, chk.path("opcases_"))
+    tfiles = [f for f in files if any('"op":"Truncate"' in l.replace(" ", "") for l in open(f))]
+    if tfiles:
+        vals = chk.path("trunc_vals.ndjson")
+        lib.harness(["eval", vals, chk.seed, {"quick": 3, "thorough": 12}[tier]] + tfiles, binary="ops", timeout=3000)
+        trecs = [r for r in lib.read_ndjson(vals) if r["rec"]["op"] == "Truncate"]
+        lib.write_ndjson(vals, trecs)
+        if trecs:
+            bad, _res = oc.judge(chk, vals, "plain_truncate")
+            chk.traces += len(trecs)
+            chk.note("plaintext_truncate_cases", len(trecs))
+            seen = set()
+            for r in trecs:
+                if r["id"] in bad and (r["st"], r.get("mode")) not in seen:
+                    seen.add((r["st"], r.get("mode")))
+                    chk.violation({"phase": "plaintext-truncate", "st": r["st"]},
+                                  {"case": {k: r[k] for k in ("id", "rec", "ats", "ty", "mode")}, "argument_values": r.get("exact"),
+                                   "observed": {"res": r["res"], "out": r["out"]}})
     for r in recs[:4]:
         chk.sample(dict(mc.describe(r), mpc_nodes=len(r["mpc"]), prf_nodes=sum(1 for n in r["mpc"] if n["op"] == "PRF")))
     chk.note("rule", "scalar programs: every residue of the input is explored (ExhaustInputs) with %d sampled idealised tapes per input; array programs: inputs and tapes sampled" % runs)
